@@ -9,6 +9,8 @@ with a properly self-signed anchor Data of that name; for some (anchor, packet n
 Compared with the Lean model (driver op `C14 lvs`, NdnModel/CascadeLvs.lean: `userFnsOk`, `rootOfTrust`,
 `anchorMatches`, `constructLvs`, `validate` over `Inst.env` = `Checker.check`):
   validate_user_fns(), root_of_trust(), the rule names the anchor matches, built / exception class, verdicts.
+A link on which the real `Checker.check` raises (user function raising, ...) is compared too: the exception reaches
+the caller of the validator, the model's verdict is `E:<class>`.
 Oracle (property statement, on the implementation only): the validator is built only if the anchor matches at
 least one rule and every root of trust; a packet is accepted only if the schema lets the anchor's name sign
 the packet's name (independent source-level reading `lvs_common.Spec`) and the signature is the anchor's.
@@ -74,17 +76,19 @@ def cases(rng, tier):
         r = rng.random()
         defined = list(L.FN_NAMES) if r < 0.7 else sorted(rng.sample(L.FN_NAMES, rng.randrange(len(L.FN_NAMES))))
         nb = [L.name_bytes(nm) for nm in names]
-        signs = []
+        signs, raisers = [], []
         for a in range(len(names)):
             for p in range(len(names)):
                 try:
                     if spec.check(nb[p], nb[a]):
                         signs.append([a, p])
-                except Exception:       # noqa (a user function raised)
-                    pass
+                except Exception:       # noqa (a user function raised): the validator must raise too, see model_obs
+                    raisers.append([a, p])
         links = []
         for _ in range(rng.randint(3, 7)):
-            if signs and rng.random() < 0.6:
+            if raisers and rng.random() < 0.3:
+                a, p = rng.choice(raisers)
+            elif signs and rng.random() < 0.6:
                 a, p = rng.choice(signs)
             else:
                 a, p = rng.randrange(len(names)), rng.randrange(len(names))
@@ -108,10 +112,16 @@ def shrink(case):
         yield dict(case, digest=[False] * len(dg))
 
 
+PYERR = {'IndexError', 'ValueError', 'TypeError', 'KeyError', 'DecodeError', 'AttributeError', 'OverflowError'}
+
+
 def _exc_name(e):
+    """the class as the model names it (`PyErr.name`): LvsModelError & co. have no constructor there and are `Other`;
+    the harness's own step cap stays recognisable"""
     if isinstance(e, ValueError):
         return 'ValueError'
-    return type(e).__name__
+    n = type(e).__name__
+    return n if n in PYERR or n == 'StepCap' else 'Other'
 
 
 def _wire(name, kl_name, signer_key, content):
@@ -219,15 +229,20 @@ def model_obs(answer, case, impl):
         m, b = r.split('~')
         anchors.append([m if m.startswith('E:') else _lst(m), b])
     verdicts = [] if vs == '.' else vs.split(',')
-    # a link on which the real `Checker.check` raises is outside the model (`allowed` is a total predicate)
-    verdicts = ['raises' if not isinstance(l.get('check', True), bool) else v for v, l in zip(verdicts, impl['links'])]
+    # a link on which the real `Checker.check` raises IS compared: the model's verdict is then `E:<class>` (the exception
+    # reaches the caller of the validator); only runs the harness itself cut short (step cap) are left out
+    verdicts = ['cut' if _cut(l) else v for v, l in zip(verdicts, impl['links'])]
     return {'lvs': True, 'userfns': uf == '1', 'roots': _lst(roots), 'anchors': anchors, 'verdicts': verdicts}
 
 
 def impl_obs(impl):
     return {'lvs': True, 'userfns': impl['userfns'], 'roots': impl['roots'],
             'anchors': [[a['matched'], a['built']] for a in impl['anchors']],
-            'verdicts': ['raises' if not isinstance(l.get('check', True), bool) else l['verdict'] for l in impl['links']]}
+            'verdicts': ['cut' if _cut(l) else l['verdict'] for l in impl['links']]}
+
+
+def _cut(l):
+    return l.get('check') == 'NONTERMINATION' or l.get('verdict') == 'E:StepCap'
 
 
 def oracle(case, impl):
